@@ -13,7 +13,6 @@ import (
 	cpb "github.com/google/go-sev-guest/proto/check"
 	"github.com/google/go-sev-guest/validate"
 	"google.golang.org/protobuf/proto"
-	"google.golang.org/protobuf/types/known/timestamppb"
 
 	"verif/internal/attest"
 	"verif/internal/ev"
@@ -21,17 +20,24 @@ import (
 )
 
 // A validator configured with "verify at the current time" (Options.Now unset) and reused later must
-// give a later call the result a validator obtained at that later moment gives: the only inputs are
-// the attestation, the endorsement and the configured options, not the moment the validator was made.
-// The oracle never compares against a wall-clock expectation: the reused and the fresh validator are
-// invoked back to back, both strictly after the certificate boundary has passed (the harness waits
-// until the clock says so), so scheduling delays cannot change either result.
+// give a later call the result that call gets in isolation at that later moment: the only inputs are
+// the attestation, the endorsement and the configured options, not the moment the validator was made
+// and not what was validated before.
+//
+// "In isolation" is realised by construction rather than by an expectation about time: a TWIN
+// endorsement (a second signing certificate with the same validity window but another serial number,
+// which nothing has ever validated) is validated once by a freshly built validator. The reused
+// validator, a fresh validator on the same endorsement and the twin are invoked back to back, all
+// strictly after the certificate boundary has passed (the harness waits until the clock says so), so
+// scheduling delays cannot make the three differ. What the verdict "should" be by the clock is only
+// used to label the case: if the twin's verdict is not the one the clock suggests, the case is
+// counted as inconclusive, never as a violation.
 func TestReuseAcrossCertificateBoundary(t *testing.T) {
 	if os.Getenv("VERIF_RACE") == "1" {
 		t.Skip()
 	}
 	const name = "reuse-across-time"
-	ev.Rule(name, "validators built with Options.Now unset {closure with blob, closure with Options.Endorsement, go-sev-guest options holding the closure} x signing certificate whose {NotBefore, NotAfter} lies 1-2 s after the validator was obtained; the validator is invoked once at once, the harness waits until the clock has passed the boundary, then invokes the reused validator and a freshly built one back to back; oracle: same accept/reject; non-trivial = all; distinct = (variant, boundary)")
+	ev.Rule(name, "validators built with Options.Now unset {closure with blob, closure with Options.Endorsement, go-sev-guest options holding the closure} x signing certificate whose {NotBefore, NotAfter} lies 1-2 s after the validator was obtained; the validator is invoked once at once, the harness waits until the clock has passed the boundary, then invokes back to back: the reused validator, a freshly built one on the same endorsement, and a freshly built one on a twin endorsement (same validity window, other certificate serial, never validated before = the call in isolation); oracle: all three give the same accept/reject; non-trivial = the twin's verdict is the one the clock suggests (NotBefore passed -> accept, NotAfter passed -> reject) and, when the first call really happened before the boundary, differs from the first call's; otherwise counted inconclusive; distinct = (variant, boundary)")
 	root := pki.MakeCert(pki.CertSpec{CN: "verif-root", Serial: 1, NotBefore: time.Now().Add(-day), NotAfter: time.Now().Add(1000 * day), IsCA: true, Key: pki.Key(0)})
 	pool := x509.NewCertPool()
 	pool.AddCert(root)
@@ -62,35 +68,42 @@ func TestReuseAcrossCertificateBoundary(t *testing.T) {
 		}},
 	}
 	rounds := ev.Scale(1, 4)
+	serial := int64(10)
 	for round := 0; round < rounds; round++ {
 		type pending struct {
-			mk       mk
-			boundary string
-			at       time.Time
-			reused   func() error
-			e        *epb.VMLaunchEndorsement
-			blob     []byte
-			first    error
+			mk          mk
+			boundary    string
+			at          time.Time
+			reused      func() error
+			e, twin     *epb.VMLaunchEndorsement
+			blob, tblob []byte
+			first       error
+			firstEarly  bool
 		}
 		var ps []*pending
 		start := time.Now()
 		edge := start.Truncate(time.Second).Add(2 * time.Second) // 1-2 s ahead, on a whole second as certificates store it
 		for _, boundary := range []string{"NotBefore", "NotAfter"} {
-			spec := pki.CertSpec{CN: "verif-signer", Serial: 2, NotBefore: start.Add(-day), NotAfter: start.Add(day), Key: pki.Key(1), Parent: root, ParentKey: pki.Key(0)}
+			spec := pki.CertSpec{CN: "verif-signer", NotBefore: start.Add(-day), NotAfter: start.Add(day), Key: pki.Key(1), Parent: root, ParentKey: pki.Key(0)}
 			if boundary == "NotBefore" {
 				spec.NotBefore = edge
 			} else {
 				spec.NotAfter = edge
 			}
-			cert := pki.MakeCert(spec)
-			g := &epb.VMGoldenMeasurement{Timestamp: timestamppb.New(t0), ClSpec: 1, Digest: make([]byte, 48),
-				SevSnp: &epb.VMSevSnp{Measurements: map[uint32][]byte{4: measEndorsed4}, Policy: 0x70000, FamilyId: make([]byte, 16), ImageId: make([]byte, 16)}}
-			e := pki.Endorse(g, cert.Raw, pki.Key(1))
-			blob, _ := proto.Marshal(e)
+			endorse := func() (*epb.VMLaunchEndorsement, []byte) {
+				serial++
+				spec.Serial = serial
+				e := pki.Endorse(golden(map[uint32][]byte{4: measEndorsed4}), pki.MakeCert(spec).Raw, pki.Key(1))
+				blob, _ := proto.Marshal(e)
+				return e, blob
+			}
 			for _, m := range mks {
-				p := &pending{mk: m, boundary: boundary, at: edge, e: e, blob: blob}
-				p.reused = m.make(e, blob)
+				p := &pending{mk: m, boundary: boundary, at: edge}
+				p.e, p.blob = endorse()
+				p.twin, p.tblob = endorse() // untouched until the boundary has passed
+				p.reused = m.make(p.e, p.blob)
 				p.first = p.reused()
+				p.firstEarly = time.Now().Before(edge)
 				ps = append(ps, p)
 			}
 		}
@@ -100,14 +113,27 @@ func TestReuseAcrossCertificateBoundary(t *testing.T) {
 		}
 		for _, p := range ps {
 			got := p.reused()
-			want := p.mk.make(p.e, p.blob)()
-			if (got == nil) != (want == nil) {
-				ev.Violation(t, "C09/result-depends-on-validator-age", "variant %s, certificate %s at %s, validator obtained %s earlier with Options.Now unset: reused validator says %s (%v), a validator obtained now says %s (%v); first call right after construction said %s",
-					p.mk.name, p.boundary, p.at.Format(time.RFC3339), time.Since(start).Round(time.Millisecond), okStr(got), got, okStr(want), want, okStr(p.first))
+			same := p.mk.make(p.e, p.blob)()
+			alone := p.mk.make(p.twin, p.tblob)()
+			where := fmt.Sprintf("variant %s, certificate %s at %s, validator obtained %s earlier with Options.Now unset", p.mk.name, p.boundary, p.at.Format(time.RFC3339), time.Since(start).Round(time.Millisecond))
+			if (got == nil) != (alone == nil) {
+				ev.Violation(t, "C09/result-depends-on-validator-age", "%s: the reused validator says %s (%v); a validator obtained now says %s (%v) for an equal endorsement nothing has validated before (and %s for the same endorsement); first call right after construction said %s",
+					where, okStr(got), got, okStr(alone), alone, okStr(same), okStr(p.first))
 				continue
 			}
-			ev.Case(name, true, fmt.Sprintf("%s|%s|%d", p.mk.name, p.boundary, round), p.mk.name+"/"+p.boundary+"/"+okStr(got), func() any {
-				return map[string]any{"variant": p.mk.name, "boundary": p.boundary, "first_call": okStr(p.first), "after_boundary": okStr(got), "fresh_after_boundary": okStr(want)}
+			if (same == nil) != (alone == nil) {
+				ev.Violation(t, "C09/result-depends-on-earlier-validations", "%s: a validator obtained now says %s (%v) for the endorsement validated earlier but %s (%v) for an equal endorsement nothing has validated before",
+					where, okStr(same), same, okStr(alone), alone)
+				continue
+			}
+			byClock := p.boundary == "NotBefore" // NotBefore passed -> accept; NotAfter passed -> reject
+			nontrivial := (alone == nil) == byClock && (!p.firstEarly || (p.first == nil) != (alone == nil))
+			if !nontrivial {
+				ev.Class(name, "inconclusive/verdict-not-the-one-the-clock-suggests")
+				ev.Note("%s: %s: in isolation after the boundary: %s; first call (before the boundary: %v): %s", name, where, okStr(alone), p.firstEarly, okStr(p.first))
+			}
+			ev.Case(name, nontrivial, fmt.Sprintf("%s|%s|%d", p.mk.name, p.boundary, round), p.mk.name+"/"+p.boundary+"/"+okStr(got), func() any {
+				return map[string]any{"variant": p.mk.name, "boundary": p.boundary, "first_call": okStr(p.first), "first_call_before_boundary": p.firstEarly, "after_boundary": okStr(got), "fresh_after_boundary": okStr(same), "isolated_twin_after_boundary": okStr(alone)}
 			})
 		}
 	}
